@@ -86,6 +86,10 @@ def resolve(target):
     raise ImportError(target)
 
 
+def needs_calls(fn):
+    return callable(fn) and "calls" in inspect.signature(fn).parameters
+
+
 def call_clause(fn, argv):
     if not callable(fn):
         return fn
@@ -128,7 +132,7 @@ def check_one(c, fn, argv):
         av = dict(argv)
         av["result"] = result
         for nm, cl in list(c.ensures.items()) + list(c.native_ensures.items()):
-            if nm in c.native_skip:
+            if nm in c.native_skip or (callable(cl) and "calls" in inspect.signature(cl).parameters):
                 continue
             try:
                 ok = call_clause(cl, av)
@@ -138,7 +142,7 @@ def check_one(c, fn, argv):
             if not ok:
                 fails.append((f"post:{nm}", "false"))
         for exc, cond in c.raises.items():
-            if f"raises:{exc}" in c.native_skip:
+            if f"raises:{exc}" in c.native_skip or needs_calls(cond):
                 continue
             if call_clause(cond, argv):
                 fails.append((f"raises:{exc}-if", "returned normally although the raise condition holds"))
@@ -146,7 +150,9 @@ def check_one(c, fn, argv):
     else:
         matched = [e for e in c.raises if exc_matches(raised, e)]
         if matched:
-            if not call_clause(c.raises[matched[0]], argv) and f"raises:{matched[0]}" not in c.native_skip:
+            if needs_calls(c.raises[matched[0]]):
+                pass
+            elif not call_clause(c.raises[matched[0]], argv) and f"raises:{matched[0]}" not in c.native_skip:
                 fails.append((f"raises:{matched[0]}-only-if", f"raised {raised!r} although the condition is false"))
         elif any(exc_matches(raised, e) for e in c.may_raise):
             pass
